@@ -360,6 +360,14 @@ def c20_trace(text: str, default: bool, ext_texts: list[str]) -> Optional[dict]:
                         eq_event(r, m, c2)
                     except Exception:  # noqa: BLE001
                         pass
+                elif isinstance(v, Repeated) and hasattr(type(m), pub + '_with_comments') and \
+                        any(isinstance(i, models.BlockComment) for i in v.items):
+                    c2 = copy.deepcopy(m)
+                    try:
+                        getattr(c2, pub + '_with_comments').unclaim_interleaving_comments()     # same text, ownership changed
+                        eq_event(r, m, c2)
+                    except Exception:  # noqa: BLE001
+                        pass
                 elif isinstance(v, Repeated) and v.items and hasattr(type(m), pub):
                     c2 = copy.deepcopy(m)
                     try:
@@ -407,7 +415,9 @@ def validate(traces: list[dict], timeout: float = 1800) -> dict:
 def _chunk(arg: tuple) -> list:
     prop, flavors, docs, exts = arg
     out = []
-    for d in docs:
+    from checks import store_replay
+    for dk, d in enumerate(docs):
+        store_replay.set_load_factor([1000, 2, 3, 4][dk % 4])      # models straddle block boundaries
         for fl in flavors:
             text = doclib.render(d, fl)
             for default in (True, False):
@@ -418,6 +428,7 @@ def _chunk(arg: tuple) -> list:
                     tr = c20_trace(text, default, et)
                     if tr:
                         out.append(tr)
+    store_replay.set_load_factor(1000)
     return out
 
 
